@@ -3,13 +3,46 @@ output buffers so that endFrame / the seek-table writer resume mid-way, maxFrame
 (1) decoded whole by the library and by the independent Lean decoder (frames + skippable table), (2) loaded by the real reader and by
 the Lean model Seekable.load: accessors at indices 0..n+1 and offsetToFrameIndex at boundary positions must agree, (3) read through
 memory / FILE* / callback access at random, sequential, backwards, boundary-straddling, zero-length and end-of-content ranges: every
-read must return exactly those bytes; (4) corrupted archives in the ASan+UBSan build: error or checksum-detected, never a crash."""
+read must return exactly those bytes; (4) corrupted archives in the ASan+UBSan build: error or checksum-detected, never a crash.
+(5) checksum column: the entries of every archive's table, read from the raw bytes, against Seekable.expectedChecksums (the low 32 bits of XXH64 over each frame's
+share of the SOURCE, derived from the table's cut alone: no call history in it), and each frame decoded on its own by a regular decoder and by
+ZSTD_seekable_decompressFrame (cks).  Directed family partial_consumption_ops: frames longer than one 128 KiB block written through output windows far smaller than a
+compressed block, so that the inner ZSTD_compressStream takes LESS than the chunk it is offered and the caller re-presents the rest (counted by the harness:
+partial=<calls>); every input chunking, checksums on, frame sizes 128 KiB+1 .. 2^30 / default, explicit endFrame points."""
 import os
 import build, zv, frames, datagen
 
 ASSUMPTIONS = ["reads with offset+length beyond the content are outside the property's quantifier (they are clamped by the reader); only verdicts are compared on corrupted archives",
                "the seek-table WRITER model is tied byte for byte: Seekable.serialize of the loaded entries must equal the tail of every archive the real writer produced (tblser)"]
 SRC = ["zvh_seek.c", os.path.join(build.REPO, "contrib/seekable_format/zstdseek_compress.c"), os.path.join(build.REPO, "contrib/seekable_format/zstdseek_decompress.c")]
+
+
+def partial_consumption_ops(rng, quick):
+    """Archives whose frames are longer than one block (the seekable compressor always works with 128 KiB blocks once maxFrameSize > 128 KiB), written through output
+    windows of 1..4096 bytes: when a block fills up in the middle of an offered chunk, the inner ZSTD_compressStream compresses it, cannot flush it and returns having
+    taken only a part of the chunk; the caller re-presents the rest (ZSTD_seekable_compressStream's contract: input->pos says how much was read).  Sizes, frame cut and
+    checksums logged for the frame must describe what was consumed.  Incompressible and compressible contents (compressed block larger / smaller than 4 KiB), every
+    chunking (whole input at once .. 7-byte chunks: any chunk that straddles a block boundary is cut), frame sizes from one byte above the block size to the maximum and the
+    default, with and without explicit endFrame points, checksums on (one in five off)."""
+    out = []
+    n = 8 if quick else 80
+    for j in range(n):
+        size = rng.choice([133000, 150000, 200000, 270000, 330000]) + rng.randrange(4000)
+        if j % 2 == 0:
+            x = datagen.randbytes(rng, size)
+        elif j % 4 == 1:
+            x = datagen.text(rng, size)
+        else:
+            x = datagen.gen(rng, size)[1]
+            if len(x) < 133000:
+                x = x + datagen.randbytes(rng, size - len(x))
+        mfs = rng.choice([0, 0, 131073, 140000, 262144, 1 << 20, 1 << 30])
+        ck = 0 if j % 5 == 4 else 1
+        ins = rng.choice(["1000000", "100000", "150000,7", "4096", "1,100000", "65536,7,100"])
+        outs = ",".join(str(rng.choice([1, 2, 3, 9, 64, 1000, 4096])) for _ in range(rng.randint(1, 3)))
+        every = rng.choice([0, 0, 0, 140000, 200000])
+        out.append(("mk %d %d %d %s %s %s %d %d stat" % (rng.choice([1, 1, 3]), mfs, ck, frames.hx(x), ins, outs, every, rng.choice([0, 0, 300])), x, mfs, ck))
+    return out
 
 
 def correspondence(ctx):
@@ -36,7 +69,11 @@ def correspondence(ctx):
             ins, outs = "100000", "1000000"
         every = rng.choice([0, 0, 1, 50, 3000, 100000])
         prior = rng.choice([0, 0, 1, 300, 5000]) if len(x) else 0        # abandoned earlier session on the same compression object
-        lines.append("mk %d %d %d %s %s %s %d %d" % (rng.choice([1, 3, 3, 9]), mfs, ck, frames.hx(x), ins, outs, every, prior)); meta.append((x, mfs, ck))
+        lines.append("mk %d %d %d %s %s %s %d %d stat" % (rng.choice([1, 3, 3, 9]), mfs, ck, frames.hx(x), ins, outs, every, prior)); meta.append((x, mfs, ck))
+    pc_lines = partial_consumption_ops(rng, ctx.quick())
+    for ln_, x_, mfs_, ck_ in pc_lines:
+        lines.append(ln_); meta.append((x_, mfs_, ck_))
+    pc_set = {ln_ for ln_, _, _, _ in pc_lines}
     outs_ = frames.parallel(lambda ch: [frames.run_lines(exe, ch, timeout=1800)], frames.split_chunks(lines, 16))
     arch = []
     for (rc, out, err), ch in zip(outs_, frames.split_chunks(lines, 16)):
@@ -44,8 +81,17 @@ def correspondence(ctx):
         if rc != 0:
             ctx.violation("seekable compressor aborted in the sanitizer build: %s" % err[-500:], dict(kind="monitor", op=ch[min(len(out), len(ch) - 1)][:300000], stderr=err[-2000:]))
     ops, want, kinds, keep = [], [], [], []
+    pstat = dict(archives_with_partial_consumption=0, partial_consumption_calls=0, directed_archives=len(pc_lines), directed_with_partial_consumption=0, checksummed_with_partial_consumption=0)
     for (x, mfs, ck), ln, a in zip(meta, lines, arch):
         ev += 1
+        aw = a.split()
+        if len(aw) == 3 and aw[1].startswith("partial=") and not a.startswith("err"):     # "<hex> partial=<p> calls=<c>" (mk ... stat)
+            a = aw[0]; pc = int(aw[1][8:])
+            pstat["partial_consumption_calls"] += pc
+            if pc:
+                pstat["archives_with_partial_consumption"] += 1
+                pstat["checksummed_with_partial_consumption"] += 1 if ck else 0
+                pstat["directed_with_partial_consumption"] += 1 if ln in pc_set else 0
         if a.startswith("err"):
             ctx.violation("seekable compression failed: %s" % a, dict(kind="monitor", op=ln[:300000])); continue
         n_ = len(x)
@@ -100,6 +146,39 @@ def correspondence(ctx):
         ev += 1
         if m != "same":
             ctx.violation("seek-table writer model differs from the bytes ZSTD_seekable_writeSeekTable emitted: %s" % m, dict(kind="tie", correspondence="Seekable.serialize vs zstdseek_compress.c", op=op_[:300000], model=m), no_input=True)
+            break
+    # (5) checksum column: the table's entries as written (raw bytes) against the model's frame log for this source and this cut; every frame decoded on its own by a
+    # regular decoder (content of dSize bytes whose XXH64 is the stored checksum) and by the seekable reader's own checksum-verifying ZSTD_seekable_decompressFrame
+    k_c = ["cks " + a for (x, a, ln) in keep]
+    k_m = ["cks %s %s" % (a, frames.hx(x)) for (x, a, ln) in keep]
+    kc = frames.parallel(lambda ch: [frames.run_lines(exe, ch, timeout=1800)], frames.split_chunks(k_c, 16))
+    kcf = []
+    for (rc, out, err), ch in zip(kc, frames.split_chunks(k_c, 16)):
+        kcf += out + ["crash"] * (len(ch) - len(out))
+        if rc != 0:
+            ctx.violation("frame-by-frame decoding of an archive the seekable compressor wrote crashed (sanitizer build): %s" % err[-500:], dict(kind="monitor", op=ch[min(len(out), len(ch) - 1)][:300000], stderr=err[-2000:]))
+    km = frames.parallel(lambda ch: frames.model_lines(ch, timeout=3600), frames.split_chunks(k_m, 16))
+    nck = 0
+    for (x, a, ln), c, m in zip(keep, kcf, km):
+        ev += 1
+        rep = dict(kind="monitor", op=ln[:300000], archive=a[:300000])
+        cw = c.split()
+        if len(cw) != 6 or cw[0] != "ok":
+            if c != "crash":
+                ctx.violation("the archive's seek table cannot be walked frame by frame: %s" % c[:200], rep)
+            continue
+        nck += int(cw[1][2:]) if cw[2] == "ck=1" else 0
+        if cw[4] != "bad=0":
+            ctx.violation("%s of %s frame(s): the frame's compressed slice does not decode to the table's decompressed size, or the table's checksum is not XXH64 (low 32 bits) of the frame's content [%s]" % (cw[4][4:], cw[1][2:], " ".join(ln.split()[:4] + ["<src>"] + ln.split()[5:])), rep)
+        elif cw[5] != "rdbad=0":
+            ctx.violation("%s of %s frame(s) are refused / returned differently by ZSTD_seekable_decompressFrame although the archive is what the seekable compressor wrote [%s]" % (cw[5][6:], cw[1][2:], " ".join(ln.split()[:4] + ["<src>"] + ln.split()[5:])), rep)
+        if " ".join(cw[:4]) != m:
+            ce, me = cw[3][2:].split(","), (m.split()[3][2:].split(",") if m.startswith("ok") and len(m.split()) == 4 else [])
+            k = next((i for i in range(min(len(ce), len(me))) if ce[i] != me[i]), None)
+            what = "frame %d: table holds dSize:checksum %s, the model %s" % (k, ce[k], me[k]) if k is not None else "impl %r model %r" % (" ".join(cw[:3]), m[:80])
+            ctx.violation("checksum column of the seek table differs from the model's frame log (low 32 bits of XXH64 over each frame's share of the source): %s [%s]" % (what, " ".join(ln.split()[:4] + ["<src>"] + ln.split()[5:])),
+                          dict(rep, correspondence="Seekable.expectedChecksums vs ZSTD_seekable_compressStream / endFrame / logFrame", model=m[:2000], impl=c[:2000]))
+        if len(ctx.violations) >= 8:
             break
     tc = frames.parallel(lambda ch: frames.run_lines(exe, ch, timeout=1800)[1], frames.split_chunks(t_ops, 16))
     tm = frames.parallel(lambda ch: frames.model_lines(ch, timeout=3600), frames.split_chunks(t_ops, 16))
@@ -183,7 +262,8 @@ def correspondence(ctx):
     return dict(evaluations=ev, distinct_nontrivial=len({a for _, a, _ in keep}),
                 rule="archives from the real seekable compressor: contents x maxFrameSize in {1,2,7,100,1000,1024,4096,128Ki-1,128Ki,128Ki+1,1Mi,default} x checksum x call histories (input chunks, 1..9-byte output windows, explicit "
                      "endFrame every k bytes) incl. > 21845 frames; whole decode, loader + accessors + lookups vs the Lean model, range reads in memory / FILE* / callback mode vs the source bytes, corrupted archives; distinct = distinct archives",
-                samples=[dict(op=" ".join(lines[2].split()[:4]) + " <src> " + " ".join(lines[2].split()[5:]), table=tc[4][:120] if len(tc) > 4 else "")], archives=len(keep), range_reads=nreads, corrupted=len(cops))
+                samples=[dict(op=" ".join(lines[2].split()[:4]) + " <src> " + " ".join(lines[2].split()[5:]), table=tc[4][:120] if len(tc) > 4 else "")], archives=len(keep), range_reads=nreads, corrupted=len(cops),
+                checksummed_frames_tied=nck, **pstat)
 
 
 def replay(ctx, data):
